@@ -803,3 +803,57 @@ def r_rules(fn, nargs):
         if isinstance(n, ast.Call) and isinstance(n.func, ast.Name) and n.func.id == 'enumerate' and n.args and isinstance(n.args[0], ast.Call) and isinstance(n.args[0].func, ast.Name):
             return n.args[0].func.id
     return None
+
+
+# ------------------------------------------------------------------------------ the constructor contracts, checked against depccg/tree.py
+def constructor_records(I, prop):
+    """Tree.make_terminal / make_unary / make_binary of the real depccg/tree.py, executed on symbolic arguments: the node they return has the category, the
+    children (same objects, same order), the label, the symbol and the head flag they were given - what make_terminal / make_unary / make_binary above assume"""
+    from vc import engine
+    from vc.pyvc import PathCtx
+    w = I.w
+    m = I.load_module('depccg.tree')
+    TreeCls = m.env.lookup('Tree')
+    TokenCls = I.load_module('depccg.types').env.lookup('Token')
+    saved = I.ctx
+    recs = []
+
+    def add(name, goal, what):
+        if isinstance(goal, bool):
+            goal = z3.BoolVal(goal)
+        v, b, ms, _ = engine.solve(goal, [])
+        recs.append(dict(name=f'{prop}/depccg/tree.py::Tree.{name}/constructor-contract', kind='post', verdict=v, backend=b, ms=ms, inputs=None, detail=what,
+                         witness=dict(function=f'depccg/tree.py::Tree.{name}')))
+    try:
+        c = Z(z3.Const('c', w.Cat))
+        os_, sy, h = Z(z3.String('ctor_op_string')), Z(z3.String('ctor_op_symbol')), Z(z3.Bool('ctor_head'))
+        for name in ('make_terminal', 'make_unary', 'make_binary'):
+            I.ctx = PathCtx([])
+            I.ctx.abstract = w.abstract
+            l, r, tok = Obj(TreeCls), Obj(TreeCls), Obj(TokenCls)
+            f = I.getattr(TreeCls, name, None)
+            try:
+                if name == 'make_terminal':
+                    res = I.call(f, [tok, c], {}, None)
+                    kids, conj = [tok], []
+                elif name == 'make_unary':
+                    res = I.call(f, [c, l, os_, sy], {}, None)
+                    kids, conj = [l], [I.ex(res.attrs.get('op_string')) == os_.e, I.ex(res.attrs.get('op_symbol')) == sy.e]
+                else:
+                    res = I.call(f, [c, l, r, os_, sy, h], {}, None)
+                    hv = res.attrs.get('head_is_left')
+                    kids, conj = [l, r], [I.ex(res.attrs.get('op_string')) == os_.e, I.ex(res.attrs.get('op_symbol')) == sy.e,
+                                          (I.ex(hv) == h.e) if not isinstance(hv, bool) else z3.BoolVal(False)]
+            except CheckerError:
+                raise
+            except Exception as e:        # noqa  (PyRaise, forks: the constructor is not the straight-line code the contract assumes)
+                add(name, False, f'the constructor does not run straight through on well-formed arguments: {type(e).__name__}')
+                continue
+            ch = res.attrs.get('children') if isinstance(res, Obj) else None
+            same_kids = isinstance(ch, list) and len(ch) == len(kids) and all(a is b for a, b in zip(ch, kids))
+            catv = res.attrs.get('cat') if isinstance(res, Obj) else None
+            add(name, z3.And(z3.BoolVal(bool(isinstance(res, Obj) and res.cls is TreeCls and same_kids)), I.ex(catv) == c.e if catv is not None else z3.BoolVal(False), *conj),
+                'the node carries the category, the children (same objects, in order), the label, the symbol and the head flag it was given')
+    finally:
+        I.ctx = saved
+    return recs
